@@ -598,6 +598,10 @@ Qed.
 Lemma env_overrides_thissystem backends fl v : backends_is_thissystem backends fl (Some v) = negb (v =? 0)%Z.
 Proof. reflexivity. Qed.
 
+(* a derived topology (dup, dup of dup, adopt, in any order) is its source as far as binding goes *)
+Lemma derive_id T ds : fold_left derive ds T = T.
+Proof. revert T. induction ds as [|d ds IH]; intros T; cbn [fold_left]; [reflexivity|]. rewrite IH. destruct d, T; reflexivity. Qed.
+
 (* the hooks a load installs depend on that load's configuration only, not on earlier (failed) loads of the handle *)
 Lemma thissystem_last_load_only history c :
   thissystem_after (history ++ [c]) = backends_is_thissystem (lc_backends c) (lc_flag c) (lc_env c).
